@@ -17,7 +17,7 @@ from checks.c15 import fork_bool, fork_choice
 from checks.common import TemplateObligation
 from lx.check import Obligation, Verdict
 from lx.engine import SymStr, Unsupported, eng, f_not, sym_value
-from lx.lifted import LiftedScript, dump_runner, set_eq
+from lx.lifted import TWIN, LiftedScript, dump_runner, set_eq, twin_arm
 from lx.tree import Names
 
 PID = "C12"
@@ -145,6 +145,7 @@ class HistoryOb(Obligation):
             provider = make_provider()
         # history: one or two runs of H, each clean or failing at position k
         nruns = 1 + fork_choice("nruns", 2) if mode == "statement_fault" else 1
+        twin_arm(False)          # sensitivity twin: the history's own results are discarded, run B's is the observation
         for r in range(nruns):
             if mode == "statement_fault":
                 kind = ["unsupported", "unparsable"][fork_choice("kind%d" % r, 2)]
@@ -164,6 +165,7 @@ class HistoryOb(Obligation):
                 for t in (SymStr.const("s.") + names["zqt1"].lower(), SymStr.const("s.") + names["zqt2"].lower(), SymStr.const("s.tx")):
                     if probe(provider, t):
                         return Verdict(False, {"names": names, "steps": steps, "why": "the provider still knows a table learned during a run", "mode": mode})
+        twin_arm(True)
         got, gexc = run(self.B, names, provider)
         fresh, fexc = run(self.B0, names, DummyMetaDataProvider(md()) if mode != "default_provider" else None) if mode != "default_provider" \
             else run(self.B0, names, None)
@@ -350,6 +352,11 @@ class FrameOb(Obligation):
         names = Names(default_len=2)
         for i, s in enumerate(self.sc.slots):
             names.set(s, "nm%d" % i)
+        import sqllineage
+
+        twin_arm(False)
+        if TWIN["on"]:
+            sqllineage.twin_probe_state = []     # sensitivity twin: a module-level list that a run changes
         before = self.snapshot()
         changed = []
         from sqllineage.config import SQLLineageConfig
@@ -361,8 +368,13 @@ class FrameOb(Obligation):
                     dump_runner(sc.runner(names, tsql=True))
             else:
                 run(sc, names, prov)
+            if TWIN["on"]:
+                TWIN["n"] += 1
+                sqllineage.twin_probe_state.append(1)
             after = self.snapshot()
             changed += [k for k in after if before.get(k) != after[k] and "lx_" not in k]
+        if TWIN["on"]:
+            del sqllineage.twin_probe_state
         return Verdict(not changed, {"changed": sorted(set(changed))})
 
     def concretise(self, verdict, model):
